@@ -461,7 +461,18 @@ func (w *World) consumerTask(t *simcore.Task) {
 					return
 				}
 			}
-			w.abort(t, wt)
+			if c.Choose(2) == 0 {
+				// as a derived table does: observe another table's changes, write the own table, commit
+				w.probe("next-with-writetxn-other-table-then-commit")
+				if !w.writeOpKind(t, wt, OpInsert) {
+					return
+				}
+				if !wt.finished {
+					w.commit(t, wt)
+				}
+			} else {
+				w.abort(t, wt)
+			}
 			if w.S.Failed() {
 				return
 			}
